@@ -105,17 +105,37 @@ def forbidden_tokens():
     return hits
 
 
+_drv = None
+
+
+def _driver_proc():
+    global _drv
+    if _drv is None or _drv.poll() is not None:
+        if not os.path.exists(DRIVER):
+            raise RuntimeError('driver binary missing (run setup / lake build driver)')
+        _drv = subprocess.Popen([DRIVER], stdin=subprocess.PIPE, stdout=subprocess.PIPE, text=True, bufsize=1)
+    return _drv
+
+
 def run_driver(lines, timeout=1200):
-    if not os.path.exists(DRIVER):
-        raise RuntimeError('driver binary missing (run setup / lake build driver)')
-    data = '\n'.join(lines) + '\n'
-    p = subprocess.run([DRIVER], input=data, capture_output=True, text=True, timeout=timeout)
-    if p.returncode != 0:
-        raise RuntimeError(f'driver failed rc={p.returncode}: {p.stderr[-500:]}')
-    out = p.stdout.split('\n')
-    if out and out[-1] == '': out.pop()
-    if len(out) != len(lines):
-        raise RuntimeError(f'driver answered {len(out)} lines for {len(lines)} requests; last: {out[-1:]}')
+    """send request lines to the (persistent) compiled Lean driver, one answer line each"""
+    global _drv
+    p = _driver_proc()
+    out = []
+    try:
+        for chunk in range(0, len(lines), 256):
+            part = lines[chunk:chunk + 256]
+            p.stdin.write('\n'.join(part) + '\n'); p.stdin.flush()
+            for _ in part:
+                l = p.stdout.readline()
+                if l == '':
+                    raise RuntimeError(f'driver died (rc={p.poll()}) on request {lines[len(out)][:200]!r}')
+                out.append(l.rstrip('\n'))
+    except Exception:
+        try: p.kill()
+        except Exception: pass
+        _drv = None
+        raise
     return out
 
 
